@@ -17,6 +17,14 @@ Streams (all randomness from run.seed; case counts fixed per tier):
                 vs an independent object-graph walk (clause: every knob-bearing quantizer, each once);
                 tiny model.fit runs: hook order, factors, and every quantizer of the model holds the
                 applied factor afterwards.
+  E  alias      three real quantizers of one class (every pair of storages: python number / tf.Variable,
+                built / unbuilt) and two caller-owned tf.Variables under interleaved histories — one source
+                variable pushed to several quantizers, then number updates of one of them, updates from
+                another variable, the caller assigning to the source, copying another quantizer's attribute,
+                rebuilding, probe calls — against `Sys.step` (state of every quantizer and variable after every
+                operation); clause oracle with its own bookkeeping: after every step every quantizer's
+                factor (attribute, and the output of every probe call) is the last value written to THAT
+                quantizer and no caller-owned variable was modified by qkeras.
 """
 import itertools
 import fractions
@@ -1158,6 +1166,318 @@ def stream_layers(run, tier, Q, tf, rng):
           break
 
 
+# --------------------------------------------------------------------------- stream E
+
+_KINDS = ("py_unbuilt", "py_built", "var_built", "var_unbuilt")
+_NUMV = ("float", "np.float64", "np.float32", "tf.constant")
+
+
+def _num_arg(tf, v, variant):
+  """(the object handed to update_qnoise_factor, the exact value it carries)"""
+  if variant == 0:
+    return float(v), core.frac(float(v))
+  if variant == 1:
+    return np.float64(v), core.frac(float(v))
+  if variant == 2:
+    return np.float32(v), core.frac(np.float32(v))
+  return tf.constant(v, dtype=tf.float32), core.frac(np.float32(v))
+
+
+def _mop_line(op, exact):
+  k = op[0]
+  if k == "upd_caller":
+    return {"op": "upd_caller", "i": op[1], "k": op[2]}
+  if k == "upd_quant":
+    return {"op": "upd_quant", "i": op[1], "j": op[2]}
+  if k == "assign":
+    return {"op": "assign", "k": op[1], "v": core.rj(op[2])}
+  o = op[2]
+  if o[0] == "update":
+    return {"op": "local", "i": op[1], "o": {"op": "update", "v": core.rj(exact)}}
+  return {"op": "local", "i": op[1], "o": _op_line(o)}
+
+
+def _mop_text(op):
+  """the operation as python source (replay text of a violation)"""
+  k = op[0]
+  if k == "upd_caller":
+    return "q%d.update_qnoise_factor(w%d)" % (op[1], op[2])
+  if k == "upd_quant":
+    return "q%d.update_qnoise_factor(q%d.qnoise_factor)" % (op[1], op[2])
+  if k == "assign":
+    return "w%d.assign(%r)" % (op[1], op[2])
+  i, o = op[1], op[2]
+  if o[0] == "update":
+    return "q%d.update_qnoise_factor(%s(%r))" % (i, _NUMV[o[2]], o[1])
+  if o[0] == "update_from_var":
+    return "q%d.update_qnoise_factor(tf.Variable(%r))" % (i, o[1])
+  if o[0] == "build":
+    return "q%d.build(use_variables=%r)" % (i, o[1])
+  if o[0] == "set_use_vars":
+    return "q%d.use_variables = %r" % (i, o[1])
+  return "q%d(x)" % i
+
+
+def _op_kind(op):
+  k = op[0]
+  if k == "upd_caller":
+    return "update_from_callers_variable"
+  if k == "upd_quant":
+    return "update_from_quantizer_attribute"
+  if k == "assign":
+    return "assign_to_callers_variable"
+  return {"update": "number_update", "update_from_var": "update_from_fresh_variable", "build": "build",
+          "set_use_vars": "set_use_variables", "call": "call"}[op[2][0]]
+
+
+def _culprit(op, b):
+  """the operation after which quantizer b reads a wrong factor, relative to b (key of a violation)"""
+  if op[0] == "assign":
+    return _op_kind(op)
+  return ("own_" if op[1] == b else "other_quantizers_") + _op_kind(op)
+
+
+def _alias_histories(tier, rng, is_lin):
+  """(family, kinds of q0 q1 q2, history).  q0 = a, q1 = b, q2 = c; w0, w1 caller-owned variables.
+  Systematic part: one source variable pushed to two quantizers (every pair of storage kinds), followed by
+  each way the shared state could leak: a number update of a, an update of a from another variable, the
+  caller assigning to the source, copying a's attribute, rebuilding; c is never updated (reads its
+  constructor constant).  `C` = probe call."""
+  U = lambda i, v, var=0: ("local", i, ("update", v, var))          # noqa: E731
+  C = lambda i: ("local", i, ("call",))                             # noqa: E731
+  B = lambda i, b: ("local", i, ("build", b))                       # noqa: E731
+  A, Wq, As = (lambda i, k: ("upd_caller", i, k)), (lambda i, j: ("upd_quant", i, j)), (lambda k, v: ("assign", k, v))
+  templates = [
+      ("shared_then_number_update", [A(0, 0), A(1, 0), U(0, 1.0), C(1), C(0), U(0, 0.5, 2), C(1), C(2)]),
+      ("shared_then_assign_source", [A(0, 0), A(1, 0), As(0, 0.75), C(1), C(0), As(0, 0.0), C(0), C(2)]),
+      ("shared_then_other_variable", [A(0, 0), A(1, 0), A(0, 1), C(1), C(0), As(1, 0.125), C(0), C(1)]),
+      ("update_then_share", [A(0, 0), U(0, 1.0, 1), A(1, 0), C(1), C(0), U(1, 0.0), C(0), C(1)]),
+      ("copy_attribute_then_update_source", [A(0, 0), Wq(1, 0), U(0, 0.75), C(1), As(0, 1.0), C(1), C(0), Wq(2, 1),
+                                             U(1, 0.5, 3), C(2)]),
+      ("shared_then_rebuild", [A(0, 0), A(1, 0), B(0, True), U(0, 1.0), C(1), B(1, False), As(0, 0.5), C(1), C(0)]),
+      ("shared_attribute_only", [A(0, 0), A(1, 0), A(2, 0), U(2, 0.0), As(0, 0.625), U(0, 1.0, 2), A(2, 1)]),
+      ("probe_every_step", [A(0, 0), C(0), C(1), A(1, 0), C(0), C(1), U(0, 1.0), C(0), C(1), As(0, 0.75), C(0), C(1),
+                            A(0, 1), C(0), C(1), U(1, 0.125, 1), C(0), C(1), C(2)]),
+      ("variable_store_copy", [B(0, True), A(0, 0), Wq(1, 0), Wq(2, 0), U(0, 0.125), C(1), As(0, 1.0), U(1, 0.75, 1),
+                               C(2), C(0)]),
+  ]
+  out = []
+  for ka in _KINDS:
+    for kb in _KINDS:
+      for ti, (fam, h) in enumerate(templates):
+        kc = _KINDS[(ti + _KINDS.index(ka) + 2 * _KINDS.index(kb)) % 4]
+        out.append((fam, (ka, kb, kc), list(h)))
+  # seeded interleavings over the whole alphabet
+  vals = [0.0, 0.125, 0.25, 0.5, 0.625, 0.75, 1.0, 0.3, 0.1, 1.0 / 3.0, 0.999]
+  n_rand = 40 if tier == "quick" else 400
+  for _ in range(n_rand):
+    n = int(rng.integers(6, 11))
+    kinds = tuple(_KINDS[int(i)] for i in rng.integers(0, 4, size=3))
+    h = []
+    for _j in range(n):
+      r = int(rng.integers(0, 20))
+      i, j, k = int(rng.integers(0, 3)), int(rng.integers(0, 3)), int(rng.integers(0, 2))
+      v = vals[int(rng.integers(0, len(vals)))]
+      if r < 5:
+        h.append(A(i, k))
+      elif r < 7:
+        h.append(Wq(i, j))
+      elif r < 10:
+        h.append(As(k, v))
+      elif r < 13:
+        h.append(U(i, v, int(rng.integers(0, 4))))
+      elif r < 14:
+        h.append(("local", i, ("update_from_var", v)))
+      elif r < 16:
+        h.append(B(i, bool(rng.integers(0, 2))))
+      elif r < 17 and not is_lin:
+        h.append(("local", i, ("set_use_vars", bool(rng.integers(0, 2)))))
+      else:
+        h.append(C(i))
+    out.append(("random", kinds, h))
+  return out
+
+
+def stream_alias(run, tier, Q, tf, rng):
+  """several quantizers + caller-owned tf.Variables, interleaved histories: the factor of a quantizer is
+  private state (Sys.step / C07_multi_*)."""
+  cfg = {c[0]: c for c in CONFIGS}
+  xb = np.array([0.3125, -1.75, 0.5, 2.6875, -0.0625, 0.7], dtype=np.float32)
+  x1 = xb[:1]
+  f_init = (1.0, 0.5, 0.875)
+  w_init = (0.25, 0.375)
+  lines, meta = [], []
+  mix_lines, mix_meta = [], []
+  for label in STORAGE_CFG:
+    _, cname, kw, sur, form = cfg[label]
+    is_lin = form == "linear"
+    s_np = sur(kw, xb)
+    xq = _xq_ref(Q, cname, kw, form, xb)
+    s_fr, q_fr = [core.frac(v) for v in s_np], [core.frac(v) for v in xq]
+    if all(a == b for a, b in zip(s_fr, q_fr)):
+      raise core.InfraError("probe input does not separate surrogate and quantized value for %s" % label)
+    hists = _alias_histories(tier, rng, is_lin)
+    for hi, (fam, kinds, hist) in enumerate(hists):
+      use_ste = None if is_lin else bool(hi % 2)
+      ste_kw = {} if use_ste is None else {"use_ste": use_ste}
+      qs = []
+      for i, kind in enumerate(kinds):
+        q = _mk(Q, cname, kw, qnoise_factor=f_init[i], use_variables=kind.startswith("var"), **ste_kw)
+        if kind.endswith("_built"):
+          _call(q, x1)
+        qs.append(q)
+      ws = [tf.Variable(v, dtype=tf.float32, trainable=False) for v in w_init]
+      init = [_obs(tf, q) for q in qs]
+      # the oracle's own bookkeeping (independent of the Lean model): last value written to each quantizer,
+      # value the caller gave each of its variables
+      exp_q = [core.frac(v) for v in f_init]
+      exp_w = [core.frac(np.float32(v)) for v in w_init]
+      steps, mops, calls = [], [], []
+      verdict = None       # first clause failure of this history
+      for oi, op in enumerate(hist):
+        k = op[0]
+        exact = None
+        err = None
+        y = None
+        try:
+          if k == "upd_caller":
+            qs[op[1]].update_qnoise_factor(ws[op[2]])
+            exp_q[op[1]] = exp_w[op[2]]
+          elif k == "upd_quant":
+            qs[op[1]].update_qnoise_factor(qs[op[2]].qnoise_factor)
+            exp_q[op[1]] = exp_q[op[2]]
+          elif k == "assign":
+            ws[op[1]].assign(op[2])
+            exp_w[op[1]] = core.frac(np.float32(op[2]))
+          else:
+            i, o = op[1], op[2]
+            if o[0] == "update":
+              arg, exact = _num_arg(tf, o[1], o[2])
+              qs[i].update_qnoise_factor(arg)
+              exp_q[i] = exact
+            elif o[0] == "update_from_var":
+              qs[i].update_qnoise_factor(tf.Variable(o[1], dtype=tf.float32, trainable=False))
+              exp_q[i] = core.frac(np.float32(o[1]))
+            elif o[0] == "build":
+              qs[i].build(var_name=None, use_variables=o[1])
+            elif o[0] == "set_use_vars":
+              qs[i].use_variables = o[1]
+            else:
+              y = _call(qs[i], xb)
+        except Exception as e:  # pylint: disable=broad-except
+          err = type(e).__name__
+        mops.append(_mop_line(op, exact))
+        ob = {"qs": [_obs(tf, q) for q in qs], "ws": [core.rj(float(w.numpy())) for w in ws], "err": err}
+        steps.append(ob)
+        if y is not None:
+          calls.append((oi, op[1], y, ob["qs"][op[1]], exp_q[op[1]]))
+        # ---- clause oracle on the real objects, after every step
+        if verdict is None:
+          hist_txt = "; ".join(_mop_text(o_) for o_ in hist[:oi + 1])
+          setup = ("q0,q1,q2 = %s(**%r%s) in storage %s with qnoise_factor %s; w0,w1 = tf.Variable(%s), tf.Variable(%s)"
+                   % (cname, kw, "" if use_ste is None else ", use_ste=%s" % use_ste, list(kinds), list(f_init),
+                      w_init[0], w_init[1]))
+          if err is not None:
+            verdict = ("update_api_raises", {"op": k if k != "local" else op[2][0], "error": err},
+                       {"cfg": label, "at": oi, "error": err, "replay": setup + "; " + hist_txt})
+          for b in range(len(qs)):
+            if verdict is not None:
+              break
+            got = core.frac(np.float32(float(core.unrj(ob["qs"][b]["v"]))))
+            want = core.frac(np.float32(float(exp_q[b])))
+            if got != want:
+              aliased = [("w%d" % n) for n, w in enumerate(ws) if qs[b].qnoise_factor is w] + \
+                        [("q%d.qnoise_factor" % n) for n, q2 in enumerate(qs)
+                         if n != b and isinstance(q2.qnoise_factor, tf.Variable) and q2.qnoise_factor is qs[b].qnoise_factor]
+              verdict = ("factor_is_last_value_written_to_that_quantizer",
+                         {"victim_storage": init[b]["store"], "after": _culprit(op, b)},
+                         {"cls": cname, "cfg": label, "family": fam, "at": oi, "quantizer": "q%d" % b,
+                          "observed_qnoise_factor": float(got), "last_value_written_to_it": float(want),
+                          "attribute_is_the_same_object_as": aliased,
+                          "replay": "%s; %s  ->  q%d.qnoise_factor reads %s, the last value written to q%d is %s"
+                                    % (setup, hist_txt, b, float(got), b, float(want))})
+          for n in range(len(ws)):
+            if verdict is not None:
+              break
+            got = core.unrj(ob["ws"][n])
+            if got != exp_w[n]:
+              verdict = ("callers_variable_not_modified_by_qkeras",
+                         {"after": _op_kind(op)},
+                         {"cls": cname, "cfg": label, "family": fam, "at": oi, "variable": "w%d" % n, "observed_value": float(got),
+                          "value_the_caller_gave_it": float(exp_w[n]),
+                          "replay": "%s; %s  ->  w%d holds %s, the caller last gave it %s"
+                                    % (setup, hist_txt, n, float(got), float(exp_w[n]))})
+          if verdict is None and y is not None:
+            b = op[1]
+            f = core.frac(np.float32(float(exp_q[b])))
+            yi = [core.frac(v) for v in y]
+            for e in range(len(yi)):
+              want = s_fr[e] + f * (q_fr[e] - s_fr[e])
+              if abs(yi[e] - want) > TOL_REL * (abs(s_fr[e]) + abs(q_fr[e])):
+                verdict = ("call_uses_last_value_written_to_that_quantizer",
+                           {"victim_storage": init[b]["store"], "form": _form_name(form, use_ste)},
+                           {"cls": cname, "cfg": label, "family": fam, "at": oi, "quantizer": "q%d" % b, "x": float(xb[e]),
+                            "surrogate": float(s_np[e]), "quantized": float(xq[e]), "factor_last_written": float(f),
+                            "observed": float(y[e]), "expected": float(want),
+                            "replay": "%s; %s  ->  q%d(%s) = %s, expected s + f*(q - s) = %s with f = %s"
+                                      % (setup, hist_txt, b, float(xb[e]), float(y[e]), float(want), float(f))})
+                break
+      lines.append({"op": "multi", "qs": init, "ws": [core.rj(np.float32(v)) for v in w_init], "ops": mops})
+      meta.append((label, cname, fam, kinds, hist, init, steps, use_ste, verdict, list(exp_q)))
+      for (oi, b, y, o, f) in calls:
+        mix_lines.append({"op": "mix", "form": _form_name(form, use_ste), "s": core.enc_list(s_np),
+                          "q": core.enc_list(xq), "store": o["store"], "v": o["v"]})
+        mix_meta.append((label, fam, kinds, hist, oi, b, y))
+  outs = core.run_driver("C07", lines)
+  bad_hist = set()
+  for hidx, ((label, cname, fam, kinds, hist, init, steps, use_ste, verdict, exp_q), out) in enumerate(zip(meta, outs)):
+    htxt = "; ".join(_mop_text(o_) for o_ in hist)
+    run.case((label, kinds, use_ste, htxt),
+             sample={"cfg": label, "family": fam, "storage": list(kinds), "history": htxt,
+                     "final_factors": [float(core.unrj(o["v"])) for o in steps[-1]["qs"]],
+                     "final_variables": [float(core.unrj(v)) for v in steps[-1]["ws"]]}
+             if fam in ("shared_then_number_update", "random") and len(run.samples) < 8 and hidx % 97 == 0 else None)
+    run.compared += 1
+    run.count("alias_%s" % fam)
+    for kind in kinds:
+      run.count("alias_storage_%s" % kind)
+    bad_at = None
+    for oi, (o, m) in enumerate(zip(steps, out["steps"])):
+      a = ([(q["store"], core.unrj(q["v"]), q["built"], q["use_vars"]) for q in o["qs"]],
+           [core.unrj(v) for v in o["ws"]], o["err"] is not None)
+      b = ([(q["store"], core.unrj(q["v"]), q["built"], q["use_vars"]) for q in m["qs"]],
+           [core.unrj(v) for v in m["ws"]], False)
+      if a != b:
+        run.disagree("alias", {"cfg": label, "storage": list(kinds), "history": htxt, "at": oi,
+                               "op": _mop_text(hist[oi])},
+                     {"qs": o["qs"], "ws": o["ws"], "err": o["err"]}, m)
+        bad_at = oi
+        bad_hist.add(hidx)
+        break
+    # the oracle's bookkeeping and the model's projected history name the same "last value written"
+    run.compared += 1
+    lw = [None if v is None else core.unrj(v) for v in out["last_write"]]
+    for b in range(len(lw)):
+      if lw[b] is not None and core.frac(np.float32(float(lw[b]))) != core.frac(np.float32(float(exp_q[b]))):
+        run.disagree("alias-last-write", {"cfg": label, "history": htxt, "quantizer": b},
+                     float(exp_q[b]), float(lw[b]))
+    if verdict is not None:
+      clause, key, detail = verdict
+      run.violate(clause, key, detail, mirrored=(bad_at is None or detail["at"] < bad_at))
+  outs = core.run_driver("C07", mix_lines)
+  for (label, fam, kinds, hist, oi, b, y), out in zip(mix_meta, outs):
+    run.compared += 1
+    run.count("alias_probe_calls")
+    ym = core.dec_list(out["y"])
+    yi = [core.frac(v) for v in y]
+    if yi != ym:
+      e = [k for k in range(len(yi)) if yi[k] != ym[k]][0]
+      run.disagree("alias-call", {"cfg": label, "storage": list(kinds),
+                                  "history": "; ".join(_mop_text(o_) for o_ in hist[:oi + 1]), "x": float(xb[e])},
+                   float(y[e]), float(ym[e]))
+  run.extra["alias_histories"] = len(lines)
+
+
 # --------------------------------------------------------------------------- entry
 
 def run(run: core.Run, tier: str):
@@ -1179,11 +1499,20 @@ def run(run: core.Run, tier: str):
       "recurrent_activation, cells, wrappers, nested models, shared objects, quantized_linear), plus every "
       "history up to length 4 (6 in thorough) over {T,E,B,F} for 4 configurations x 3 models; non-trivial = "
       "distinct (configuration, model, history). D: get_quantizers on 13 real models + real model.fit runs "
-      "(1 quick, 4 thorough) on models holding quantizers in every kind of place.")
+      "(1 quick, 4 thorough) on models holding quantizers in every kind of place. E: per knob-bearing class "
+      "(6) x use_ste: 9 history templates (one caller-owned tf.Variable pushed to two or three quantizers, then a "
+      "number update of one of them / an update from a second variable / the caller assigning to the source / "
+      "copying another quantizer's attribute / build(use_variables) / probe calls after every step) x every pair "
+      "of storages of the first two quantizers out of {python number, tf.Variable} x {built, unbuilt}, plus 40 "
+      "(400 thorough) seeded interleavings of length 6-10 over {update from caller variable, update from another "
+      "quantizer's attribute, variable.assign, number update as float / np.float64 / np.float32 / tf.constant, "
+      "update from a fresh variable, build(T/F), use_variables flip, call} on 3 quantizers and 2 variables; "
+      "non-trivial = distinct (class, storages, use_ste, history).")
   stream_mix(run, tier, Q, tf, rng)
   stream_storage(run, tier, Q, tf, rng)
   stream_sched(run, tier, Q, tf, rng)
   stream_layers(run, tier, Q, tf, rng)
+  stream_alias(run, tier, Q, tf, rng)
   run.assumptions += [
       "TF eager elementwise float32 kernels (neg, add, sub, mul) are correctly rounded IEEE operations applied "
       "one at a time (device 1); python float arithmetic is IEEE float64",
@@ -1192,4 +1521,7 @@ def run(run: core.Run, tier: str):
       "bit-for-bit tie only)",
       "quantizer objects are modelled by value with an identity tag; an object shared between layers is tracked once",
       "tf.stop_gradient is the identity on values (gradients are property C06)",
+      "stream E: a tf.Variable handed to the CONSTRUCTOR (explicit sharing requested by the caller) and mutable "
+      "0-d numpy arrays handed to the update API and later mutated in place by the caller are outside the "
+      "generated histories (see notes/C07.md)",
   ]
